@@ -143,7 +143,8 @@ def execute(sc: dict) -> dict:
         if "ac_status_request" not in kinds or zreq not in kinds:
             V.append(viol("C14.no_refresh", {"link": l.id, "established": l.t_accept, "first_frames": kinds}, missing="ac" if "ac_status_request" not in kinds else "zone"))
             break
-        if kinds.count("ac_status_request") > 1 or kinds.count(zreq) > 1:
+        # AT4: the 300 s group poll may fire in the very instant of the reconnect (one extra request)
+        if kinds.count("ac_status_request") > 1 or kinds.count(zreq) > (2 if gen == 4 else 1):
             V.append(viol("C14.refresh_repeated", {"link": l.id, "first_frames": kinds}))
             break
     if links[1].t_accept - info.get("t_o", 0) > 330.0:
